@@ -341,17 +341,19 @@ ENGINES[3]["serves_properties"] = ["C01", "C02", "C03", "C04", "C05", "C09", "C1
 ENGINES[3]["path"] += ", e_twin.cc"
 PROPS["C16"] = {
     "technique": "twin monitors: objects that must describe the same thing (a copy and its untouched source, a value and its queried/normalised twin, abstract_domain and the copy-on-write abstract_domain_ref over the same history) are asked the same deterministic questions on normalised fresh copies; shadow witness sets after queries/normalize/minimize in the pool engine",
-    "level_text": "random histories of 8-32 operations (assign, arithmetic, assume, forget, project, join, meet, widening, narrowing, in-place variants, rename, expand, boolean operations, top/bottom, copies by construction/assignment/move, normalize, minimize) over a pool of 3 values for every functional domain, run simultaneously on abstract_domain and abstract_domain_ref: after every operation all pool values of both wrappers must answer alike (is_bottom, is_top, at, operator[], 16 probe states against the exported constraints); copy twins: a copy set aside must answer exactly the same after 1-4 mutations of the original, and the original after mutations of the copy; query twins: after queries/normalize/minimize a value never answers less precisely than its untouched twin, also after the same later operations; in the pool engine every witness stays inside after queries/normalize/minimize. Held on the histories run.",
-    "level_note": "answers are compared, not concretisations: a lazily completed representation may answer more precisely after a query (counted, not a violation); extrapolation operators are excluded from the 'later operations' of query twins because they depend on the representation of the left operand by design; typed (non-erased) domains are compared with their wrapper only through abstract_domain_ref over abstract_domain",
+    "level_text": "random histories of 8-32 operations (assign, arithmetic, assume, forget, project, join, meet, widening, narrowing, in-place variants, rename, expand, boolean operations, top/bottom, copies by construction/assignment/move, normalize, minimize) over a pool of 3 values for every functional domain, run simultaneously on abstract_domain and abstract_domain_ref (and, for four domains, on the unwrapped typed domain and abstract_domain): after every operation all pool values of both wrappers must answer alike (is_bottom, is_top, at, operator[], 16 probe states against the exported constraints); copy twins: a copy set aside must answer exactly the same after 1-4 mutations of the original, and the original after mutations of the copy; query twins: after queries/normalize/minimize a value never answers less precisely than its untouched twin, also after the same later operations; in the pool engine every witness stays inside after queries/normalize/minimize. Held on the histories run.",
+    "level_note": "answers are compared, not concretisations: a lazily completed representation may answer more precisely after a query (counted, not a violation); extrapolation operators are excluded from the 'later operations' of query twins because they depend on the representation of the left operand by design; the type-erased abstract_domain is compared with the unwrapped statically typed domain for four domains (intervals, split DBM, term domain over intervals, powerset of intervals); every domain is compared through abstract_domain_ref over abstract_domain",
     "rule": "a case is one history over one domain and parameter setting with its twin experiments; non-trivial = at least 4 operation kinds; distinct = hash of history + configuration",
     "jobs": {
         "quick": [{"name": "twin", "bin": "crabv", "engine": "twin", "cases": 9000, "params": {"dom": "any"}},
-                  {"name": "pool-queries", "bin": "crabv", "engine": "pool", "cases": 4000, "params": {"dom": "any"}}],
+                  {"name": "pool-queries", "bin": "crabv", "engine": "pool", "cases": 4000, "params": {"dom": "any"}},
+                  {"name": "typedtwin", "bin": "crabv", "engine": "typedtwin", "cases": 12000}],
         "thorough": [{"name": "twin", "bin": "crabv", "engine": "twin", "cases": 400000, "params": {"dom": "any"}},
-                     {"name": "pool-queries", "bin": "crabv", "engine": "pool", "cases": 150000, "params": {"dom": "any"}}],
+                     {"name": "pool-queries", "bin": "crabv", "engine": "pool", "cases": 150000, "params": {"dom": "any"}},
+                     {"name": "typedtwin", "bin": "crabv", "engine": "typedtwin", "cases": 400000}],
     },
     "floor": {"quick": 6000, "thorough": 200000},
-    "counter_floors": {"quick": {"copy_twin_checks": 8000, "query_twin_checks": 15000, "wrapper_twin_checks": 100000, "query_or_normalize_steps": 2000}},
+    "counter_floors": {"quick": {"copy_twin_checks": 8000, "query_twin_checks": 15000, "wrapper_twin_checks": 100000, "query_or_normalize_steps": 2000, "typed_wrapper_twin_checks": 150000}},
     "assumptions": _POOL_ASSUME,
 }
 
